@@ -158,6 +158,12 @@ CASES = [
      R({"sel": {"f|cased": "abc", "g|cased|endswith": "\\pw.exe", "h|cased|contains": ["x*y", "z"]}}, "not sel")),
     ("replace string (skip_special) on case-sensitive values", {"type": "replace_string", "regex": "b", "replacement": "QQ", "skip_special": True}, R({"sel": {"f|cased": "a*b", "g|cased|startswith": "bb"}}, "sel"),
      R({"sel": {"f|cased": "a*QQ", "g|cased|startswith": "QQQQ"}}, "sel")),
+    ("replace string on case-sensitive values", {"type": "replace_string", "regex": "b", "replacement": "QQ"}, R({"sel": {"f|cased": "a*b", "g|cased|startswith": "bb", "h": "b"}}, "not sel"),
+     R({"sel": {"f|cased": "a*QQ", "g|cased|startswith": "QQQQ", "h": "QQ"}}, "not sel")),
+    ("identity on case-sensitive values: regex matches nothing", {"type": "replace_string", "regex": "QQQ", "replacement": "zz"}, R({"sel": {"f|cased": "AbC", "g|cased|contains": ["x", "Y*z"]}}, "sel"), R({"sel": {"f|cased": "AbC", "g|cased|contains": ["x", "Y*z"]}}, "sel")),
+    ("map string on case-sensitive values", {"type": "map_string", "mapping": {"a": ["p", "q"], "B": "r"}}, R({"sel": {"f|cased": "a", "g|cased": "B", "h|cased": "b"}}, "sel"), R({"sel": {"f|cased": ["p", "q"], "g|cased": "r", "h|cased": "b"}}, "sel")),
+    ("value placeholders in case-sensitive values", {"type": "value_placeholders"}, R({"sel": {"f|expand|cased": "a%v%b", "g|expand|cased|contains": "%v%"}}, "not sel"), R({"sel": {"f|cased": ["aV1b", "aV2b"], "g|cased|contains": ["V1", "V2"]}}, "not sel")),
+    ("wildcard placeholders in case-sensitive values", {"type": "wildcard_placeholders"}, R({"sel": {"f|expand|cased": "a%v%b"}}, "sel"), R({"sel": {"f|cased": "a*b"}}, "sel")),
     ("convert type", {"type": "convert_type", "target_type": "str"}, R({"sel": {"f": 5}}, "sel"), R({"sel": {"f": "5"}}, "sel")),
     ("value placeholders", {"type": "value_placeholders"}, R({"sel": {"f|expand": "a%v%b"}}, "sel"), R({"sel": {"f": ["aV1b", "aV2b"]}}, "sel")),
     ("wildcard placeholders", {"type": "wildcard_placeholders"}, R({"sel": {"f|expand": "a%v%b"}}, "sel"), R({"sel": {"f": "a*b"}}, "sel")),
